@@ -23,6 +23,22 @@ NATIVE = {
 }
 
 
+# property-level native batteries (full stack through the JAX compatibility shims, native/_compat.py)
+STACK = {"C01", "C02", "C03", "C04", "C05", "C08", "C16"}
+
+
+def property_level_native(pid):
+    from contracts.native import run_native
+
+    out = []
+    specs = [("demo_battery", pid)] + ([("stack_battery", "all")] if pid in STACK else [])
+    for spec in specs:
+        r = run_native(*spec, timeout=1800)
+        r["script"] = list(spec)
+        out.append(r)
+    return out
+
+
 def _run_variant(entry, pid):
     d = tempfile.mkdtemp(prefix="vtmut")
     try:
@@ -97,7 +113,7 @@ def run(pid):
     sys.path.insert(0, ROOT)
     from contracts.native import run_native
 
-    for spec in NATIVE.get(pid, []):
-        r = run_native(*spec)
+    for spec in NATIVE.get(pid, []) + [("demo_battery", pid)] + ([("stack_battery", "all")] if pid in STACK else []):
+        r = run_native(*spec, timeout=1800)
         res["native_cross_checks"].append({"script": list(spec), "confirmed_violation": bool(r.get("confirmed")), "tier": r.get("tier"), "detail": {k: v for k, v in r.items() if k not in ("tier",)}})
     return res, lines
